@@ -162,6 +162,19 @@ CLAIMED = {
         design_ref='DESIGN.md 4 C17',
         note=TRUST + 'Bounds: extents 3^4 (min/max (3,2,3,2)), grids {1,2}^2 (thorough {1,2,3}^2). Not claimed: float t//dt, reduction-order rounding; '
                      'collector min/max exercised on a concrete exact field.'),
+    'C18': dict(
+        category='proof',
+        technique='symbolic execution of the real Layout tables (unbounded extent), of the real checkpoint-selection statements on symbolic file names (digit-variable string order), and of the real driver under recording stubs with symbolic times and clock; z3 queries',
+        text='Partial claim. (a) For all extents, the write slices of p ranks tile each dataset dimension and the read slices of p\' ranks '
+             'tile it too (p,p\'<=4, thorough 8), so a checkpoint can be read back under a different process count. (b) The statements that '
+             'select the checkpoint in setupFromFile / Grid.loadFromFile, extracted from the current source and run on symbolic file names '
+             'produced by the writer\'s own format expression, always select the largest time (times < 10^8, 2-3 files). (c) The real driver '
+             'under recording stubs, symbolic start/end times, every saveStep<=3 (thorough 4), arbitrary clock, <=3 (6) iterations: no '
+             'exception on any path, identical operator sequence in every iteration, the final time is checkpointed exactly once and no '
+             'time twice, so a restart resumes at the last time reached and N + M steps equal N+M steps at the level of control flow.',
+        design_ref='DESIGN.md 4 C18',
+        note=TRUST + 'NOT decided: bit-exact HDF5 I/O (h5py C library without MPI-IO here), constants printer/parser round trip, non-integer time steps. '
+                     'Driver collaborators are stubs; dt=2.'),
     'C20': dict(
         category='proof',
         technique='concolic symbolic execution of the real Python function on z3 Int proxies; per-path SMT queries (bounded)',
